@@ -47,8 +47,9 @@ ASSUMPTIONS = {
     "C16": ["full_join is checked at property level (left part == left_join semantics in order, "
             "every right item contained, no merge of unequal keys) only for operands whose non-key "
             "names are disjoint"],
-    "C17": ["a 'use' is a public method call on the list (attribute access); dunder-level access "
-            "(len, iteration, indexing, +, *) may or may not warn",
+    "C17": ["a 'use' is a public method call on the list or an operation that returns a new list "
+            "handing on its items (slicing, +, *); len(), iteration and integer indexing may or "
+            "may not warn",
             "links created by methods that hand on zero or freshly allocated items (clear, aggregate, "
             "map) are 'weak': ancestors reachable only through them may be reported obsolete or not",
             "after an injected callback fault inside an editing method the obsolescence state of the "
@@ -703,7 +704,7 @@ class World:
         real = self.lists[recv]
         m = self.model[recv]
         s = slice(op["start"], op["stop"], op["stride"])
-        return self.handing_op(op, lambda: real[s], m.items[s], method_use=False)
+        return self.handing_op(op, lambda: real[s], m.items[s], method_use=True)
 
     def op_reverse(self, op):
         recv = op["t"]
@@ -806,7 +807,7 @@ class World:
         other = self.lists[o]
         mitems = self.model[recv].items + self.model[o].items
         return self.handing_op(op, lambda: real + other, mitems, strong=[recv, o],
-                               others=[o], method_use=False)
+                               others=[o], method_use=True)
 
     def op_mul(self, op):
         recv = op["t"]
@@ -814,8 +815,8 @@ class World:
         n = op["n"]
         mitems = self.model[recv].items * n
         if op.get("r"):
-            return self.handing_op(op, lambda: n * real, mitems, method_use=False)
-        return self.handing_op(op, lambda: real * n, mitems, method_use=False)
+            return self.handing_op(op, lambda: n * real, mitems, method_use=True)
+        return self.handing_op(op, lambda: real * n, mitems, method_use=True)
 
     def op_group_by(self, op):
         recv = op["t"]
